@@ -150,6 +150,11 @@ pub struct Acc {
 
 impl Acc {
     pub fn count(&mut self, k: &str, n: u64) {
+        if k.starts_with("max_") {
+            let e = self.counters.entry(k.to_string()).or_insert(0);
+            *e = (*e).max(n);
+            return;
+        }
         *self.counters.entry(k.to_string()).or_insert(0) += n;
     }
     pub fn sample(&mut self, v: Value) {
@@ -193,6 +198,11 @@ impl Acc {
         }
         self.notes.extend(o.notes);
         for (k, n) in o.counters {
+            if k.starts_with("max_") {
+                let e = self.counters.entry(k).or_insert(0);
+                *e = (*e).max(n);
+                continue;
+            }
             *self.counters.entry(k).or_insert(0) += n;
         }
         self.machinery_errors.extend(o.machinery_errors);
